@@ -14,7 +14,8 @@ from ..core import Machine, Violation
 from ..models import MRecord, RecordSetModel, real_keys, uniqueness_clashes
 
 PROP = "C05"
-START_KINDS = ["empty", "ctor", "epm", "prefix_map", "priority", "reverse", "chain", "sub"]
+START_KINDS = ["empty", "ctor", "epm", "prefix_map", "priority", "reverse", "chain", "sub",
+               "remap_curie", "remap_uri", "rewire"]
 RELATIONS = [
     "fresh", "collide_curie", "collide_uri", "collide_both_same", "collide_two",
     "case_only", "identical", "new_synonyms_only", "syn_vs_canon", "invalid", "same_object",
@@ -58,6 +59,7 @@ class C05Machine(Machine):
         "merge_adds_uri_synonym_only", "merge_keeps_pattern", "merge_into_start_built", "same_object_twice",
         "empty_prefix_token", "empty_uri_prefix_token", "start_from_chain", "start_from_subconverter",
         "retry_rejected_now_accepted", "retry_rejected_again_rejected", "other_side_of_rejected_appended",
+        "start_from_reconciliation", "submission_with_own_case_variants",
     ]
 
     @classmethod
@@ -146,6 +148,18 @@ class C05Machine(Machine):
             other = gen_valid_records(rng, cfg["curie_pool"], cfg["uri_pool"], rng.randint(1, 3))
             op["records2"] = other
             op["case_sensitive"] = rng.random() < 0.6
+        elif kind in ("remap_curie", "remap_uri", "rewire"):
+            op["records"] = recs
+            if recs:
+                r0 = rng.choice(recs)
+                if kind == "remap_curie":
+                    op["mapping"] = [[r0["prefix"], rng.choice(cfg["curie_pool"])]]
+                elif kind == "remap_uri":
+                    op["mapping"] = [[r0["uri_prefix"], rng.choice(cfg["uri_pool"])]]
+                else:
+                    op["mapping"] = [[r0["prefix"], rng.choice(cfg["uri_pool"])]]
+            else:
+                op["mapping"] = []
         elif kind == "sub":
             op["records"] = recs
             allp = [r["prefix"] for r in recs] + [s for r in recs for s in r["prefix_synonyms"]]
@@ -244,6 +258,16 @@ class C05Machine(Machine):
                     rec["prefix_synonyms"].append(take(fresh_c, cfg["curie_pool"]))
                 if fresh_u and rng.random() < 0.6:
                     rec["uri_prefix_synonyms"].append(take(fresh_u, cfg["uri_pool"]))
+        if rel != "identical" and rng.random() < 0.2:
+            # spellings of the submission's own tokens that differ only by case
+            if rng.random() < 0.5:
+                vs = [v for v in (swapcase_variant(t) for t in [rec["prefix"], *rec["prefix_synonyms"]]) if v]
+                if vs:
+                    rec["prefix_synonyms"].append(rng.choice(vs))
+            else:
+                vs = [v for v in (swapcase_variant(t) for t in [rec["uri_prefix"], *rec["uri_prefix_synonyms"]]) if v]
+                if vs:
+                    rec["uri_prefix_synonyms"].append(rng.choice(vs))
         if rel == "invalid":
             if rng.random() < 0.5:
                 rec["prefix_synonyms"].append(rec["prefix"])
@@ -327,13 +351,21 @@ class C05Machine(Machine):
                 c2 = Converter([Record(**r) for r in op.get("records2", [])])
                 conv = c.chain([c1, c2], case_sensitive=op.get("case_sensitive", True))
                 self.probe("start_from_chain")
+            elif kind in ("remap_curie", "remap_uri", "rewire"):
+                from curies import reconciliation
+
+                base = Converter([Record(**r) for r in recs])
+                fn = {"remap_curie": reconciliation.remap_curie_prefixes, "remap_uri": reconciliation.remap_uri_prefixes,
+                      "rewire": reconciliation.rewire}[kind]
+                conv = fn(base, {k: v for k, v in op.get("mapping", [])})
+                self.probe("start_from_reconciliation")
             elif kind == "sub":
                 parent = Converter([Record(**r) for r in recs])
                 conv = parent.get_subconverter(op.get("prefixes", []))
                 self.probe("start_from_subconverter")
             else:
                 conv = Converter([], delimiter=delim)
-        except ValueError:
+        except (ValueError, NotImplementedError):
             # a start state that cannot be built (e.g. a bridging chain) is not the
             # business of this property: fall back to the empty converter
             self.event("start_failed_fallback_empty")
@@ -431,6 +463,9 @@ class C05Machine(Machine):
                 self.probe("retry_rejected_now_accepted")
             if op.get("relation") == "other_side_of_rejected" and outcome == "append":
                 self.probe("other_side_of_rejected_appended")
+            folded = [t.casefold() for t in sorted(mrec.all_prefixes())] + ["|"] + [t.casefold() for t in sorted(mrec.all_uri_prefixes())]
+            if len(set(folded)) < len(folded):
+                self.probe("submission_with_own_case_variants")
             if "" in mrec.all_prefixes():
                 self.probe("empty_prefix_token")
             if "" in mrec.all_uri_prefixes():
